@@ -123,6 +123,49 @@ def first_op_diff(ma, mb, table_a=None, table_b=None):
 
     wa, wb = list(ma.walk()), list(mb.walk())
     for a, b in zip(wa, wb):
+        d = _op_pair_diff(a, b, num_a, num_b, ta, tb, res)
+        if d is not None:
+            d["a_op_generic"] = op_text(a, generic=True, limit=500)
+            d["b_op_generic"] = op_text(b, generic=True, limit=500)
+            return d
+    if len(wa) != len(wb):
+        return {"op": "builtin.module", "component": "structure", "detail": f"{len(wa)} vs {len(wb)} ops"}
+    return None
+
+
+def all_diff_op_names(ma, mb, table_a=None, table_b=None, limit=40):
+    """For ALL ops that differ in a synchronised walk: [op name, parent name, grand-parent name, ...] - only used to
+    order the candidates of the single-operation isolation, never to decide."""
+    num_a, num_b = {}, {}
+    for root, num in ((ma, num_a), (mb, num_b)):
+        for op in root.walk():
+            for r in op.results:
+                num[id(r)] = len(num)
+            for reg in op.regions:
+                for blk in reg.blocks:
+                    num[id(blk)] = len(num)
+                    for a in blk.args:
+                        num[id(a)] = len(num)
+    ta, tb = table_a or {}, table_b or {}
+    out = []
+    for a, b in zip(ma.walk(), mb.walk()):
+        d = _op_pair_diff(a, b, num_a, num_b, ta, tb, resolve_resources)
+        if d is None:
+            continue
+        chain = [_opname(a)]
+        p = a.parent_op()
+        while p is not None:
+            chain.append(_opname(p))
+            p = p.parent_op()
+        if chain not in out:
+            out.append(chain)
+        if d.get("component") == "regions" or _opname(a) != _opname(b) or len(out) >= limit:
+            break  # the walks are no longer aligned after a structural difference
+    return out
+
+
+def _op_pair_diff(a, b, num_a, num_b, ta, tb, res):
+    if True:
         na, nb = _opname(a), _opname(b)
         if na != nb:
             par = a.parent_op()
@@ -167,8 +210,6 @@ def first_op_diff(ma, mb, table_a=None, table_b=None):
                 if len(list(x.ops)) != len(list(y.ops)):
                     return {"op": na, "component": "regions",
                             "detail": f"region {ri} block {bi}: {len(list(x.ops))} vs {len(list(y.ops))} ops"}
-    if len(wa) != len(wb):
-        return {"op": "builtin.module", "component": "structure", "detail": f"{len(wa)} vs {len(wb)} ops"}
     return None
 
 
@@ -223,8 +264,8 @@ def roundtrip(m, ctx, generic: bool, *, reference=None, check_clone=True, check_
 
     Returns {"symptoms": [ {symptom, ...detail} ], "t1": text or None, "m2": reparsed module or None,
              "canon": canonical form of m, "fixpoint_only": bool}.
-    `reference` (a canonical form) replaces canon(m) as the expected value (C05 compares the custom round trip
-    with the generic round trip when that one is itself lossy)."""
+    `reference` = (canonical form, module, resource table) replaces m as the expected value (C05 compares the
+    custom round trip with the generic round trip when that one is itself lossy)."""
     from xdsl.printer import Printer
     from xdsl.utils.exceptions import ParseError
     pc = printer_cls or Printer
@@ -237,7 +278,8 @@ def roundtrip(m, ctx, generic: bool, *, reference=None, check_clone=True, check_
         p.print_metadata(c.loaded_dialects)
         return s.getvalue()
 
-    out = {"symptoms": [], "t1": None, "m2": None, "canon": None, "canon2": None, "fixpoint_only": False}
+    out = {"symptoms": [], "t1": None, "m2": None, "ctx2": None, "tab2": None, "canon": None, "canon2": None,
+           "fixpoint_only": False}
     S = out["symptoms"]
     tab0 = dict(_blob_table())
     c0 = resolve_resources(canon_ir(m), tab0)
@@ -271,12 +313,17 @@ def roundtrip(m, ctx, generic: bool, *, reference=None, check_clone=True, check_
         _restore(tab0)
         return out
     out["m2"] = m2
+    out["ctx2"] = ctx2
     tab1 = dict(_blob_table())
+    out["tab2"] = tab1
     c1 = resolve_resources(canon_ir(m2), tab1)
     out["canon2"] = c1
-    expected = reference if reference is not None else c0
+    if reference is not None:
+        expected, ref_mod, ref_tab = reference
+    else:
+        expected, ref_mod, ref_tab = c0, m, tab0
     if c1 != expected:
-        d = first_op_diff(m, m2, tab0, tab1) or {"op": "?", "component": "unattributed", "detail": "canon differs"}
+        d = first_op_diff(ref_mod, m2, ref_tab, tab1) or {"op": "?", "component": "unattributed", "detail": "canon differs"}
         d["symptom"] = "canon-differs"
         S.append(d)
     else:
